@@ -9,3 +9,9 @@
              (= (tolower "BitsSet") "bitsset") (= (tolower "BitsNotSet") "bitsnotset")))
 ; ToLower is idempotent
 (assert (forall ((s String)) (! (= (tolower (tolower s)) (tolower s)) :pattern ((tolower (tolower s))))))
+; SHA-256 and hexadecimal text (cmd/seccomp-profiler: hashBinary, cachedDumpFile): uninterpreted functions of the bytes
+(declare-fun sha256of (String) String)
+(declare-fun hexof (String) String)
+; a SHA-256 digest has 32 bytes; hexadecimal text has two characters per byte
+(assert (forall ((s String)) (! (= (str.len (sha256of s)) 32) :pattern ((sha256of s)))))
+(assert (forall ((s String)) (! (= (str.len (hexof s)) (* 2 (str.len s))) :pattern ((hexof s)))))
